@@ -22,11 +22,12 @@ RULE = ("one execution = one entry point (executor layer or f_* combinator), one
         "or one fuzzed 3-thread history; distinct & non-trivial = (entry point, completion kind, op pair, placement site | "
         "history signature) in which the future reached a terminal state while probes were attached")
 REQUIRED = ["line_events", "lock_acquisitions"]
-EXEC_ENTRIES = ["map", "flat_map", "retry", "retrying", "poll", "throttle", "timeout", "cos", "map>retry", "poll>map", "throttle>retry"]
+EXEC_ENTRIES = ["map", "flat_map", "retry", "retrying", "poll", "throttle", "throttle-queued", "timeout", "cos", "map>retry", "poll>map",
+                "throttle>retry"]
 F_ENTRIES = ["f_map", "f_flat_map", "f_flat_map_inner", "f_zip", "f_sequence", "f_traverse", "f_and", "f_or", "f_apply",
              "f_nocancel", "f_proxy", "f_timeout"]
 KINDS = ["value", "exc", "inner_cancel", "refused_then_inner_cancel"]
-OPS = ["complete", "cancel", "add_cb", "add_cb_nested"]
+OPS = ["complete", "cancel", "add_cb", "add_cb_nested", "submit_other"]
 
 
 def cases(tier, seed):
@@ -54,7 +55,7 @@ def cases(tier, seed):
     nf = 24 if tier == "quick" else 2000
     for i in range(nf):
         out.append({"name": "fut.fuzz/%d" % i, "kind": "fuzz", "idx": i, "n": 20 if tier == "quick" else 40})
-    for entry in EXEC_ENTRIES[:7] + F_ENTRIES:
+    for entry in [e for e in EXEC_ENTRIES[:8] if e != "throttle-queued"] + F_ENTRIES:
         out.append({"name": "fut.waiters/%s" % entry, "kind": "waiters", "entry": entry})
     return out
 
@@ -107,7 +108,8 @@ class Entry(object):
             else:
                 raise ValueError(name)
         else:
-            layers = name.split(">")
+            queued = name == "throttle-queued"
+            layers = ["throttle"] if queued else name.split(">")
             spec = {"base": "me", "layers": []}
             for k, t in enumerate(layers):
                 L = {"t": t, "k": k}
@@ -117,7 +119,7 @@ class Entry(object):
                 if t == "retry":
                     L.update(max_attempts=1, sleep=0)
                 if t == "throttle":
-                    L.update(count=2)
+                    L.update(count=1 if queued else 2)
                 if t == "poll":
                     L.update(interval=0.5)
                 if t == "timeout":
@@ -125,6 +127,12 @@ class Entry(object):
                 spec["layers"].append(L)
             self.b = stacks.build(ctx, spec)
             self.me = self.b.base
+            self.top = self.b.top
+            if queued:
+                # the only slot is taken, another future waits in front: the future under test is queued behind it
+                self.others = [self.b.top.submit(Recorded("filler", lambda idx: ("v", "filler")))]
+                instr.advance(0.01)
+                self.others.append(self.b.top.submit(Recorded("ahead", lambda idx: ("v", "ahead"))))
             self.f = self.b.top.submit(Recorded("job", lambda idx: ("v", 0)))
             instr.advance(0.01)
 
@@ -278,6 +286,14 @@ class PScenario(object):
             ctx.p.add_cb("cb-" + who)
         elif what == "add_cb_nested":
             ctx.p.add_cb("cb-" + who, nested="nested-" + who)
+        elif what == "submit_other":
+            # unrelated traffic on the same executor
+            top = getattr(ctx.e, "top", None)
+            if top is not None:
+                try:
+                    ctx.extra = getattr(ctx, "extra", []) + [top.submit(Recorded("other-" + who, lambda idx: ("v", "other")))]
+                except RuntimeError:
+                    pass
 
     def victim_role(self, ctx):
         return "V"
@@ -292,6 +308,12 @@ class PScenario(object):
         instr.advance(0.6)
         ctx.e.complete(self.ckind)
         instr.advance(1.2)
+        for _ in range(3):
+            # (queued entries: the work in front has to end before the future under test is handed over)
+            if ctx.e.me is None or not ctx.e.me.pending():
+                break
+            ctx.e.complete(self.ckind)
+            instr.advance(1.2)
         ctx.p.add_cb("post")
         ctx.p.cancel("late")
         instr.advance(0.1)
@@ -482,6 +504,8 @@ def run_pairs(case, res):
     rng = random.Random("c02/%s/%s" % (case["seed"], case["name"]))
     for a, b in itertools.permutations(OPS, 2):
         if {a, b} == {"add_cb", "add_cb_nested"}:
+            continue
+        if "submit_other" in (a, b) and case["entry"].startswith("f_"):
             continue
         Sweep(PScenario(case["entry"], case["ckind"], a, b), res, "vt", case["name"]).run(case["cap"], rng, per_site=1)
         if harness.need_recycle():
